@@ -60,7 +60,31 @@ def candidates(ex, ob, bound=3, tries=3):
                     s.add(sym <= b + 1)
         r = s.check()
         if r == z3.sat:
-            out.append(s.model())
+            base_model = s.model()
+            # prefer a state of the FIRST loop iteration (havoc'd integer locals at 0): such a state is the
+            # entry state itself, so the model is an input of the function rather than a mid-loop snapshot
+            import re
+            hav = []
+            for a in ob.pc + [ob.goal]:
+                for sym in _consts(a):
+                    if sym.sort() == z3.IntSort() and re.match(r"^[A-Za-z_]\w*!\d+$", sym.decl().name()) \
+                            and not sym.decl().name().startswith(("ret_", "io!", "memcmp", "i!")):
+                        hav.append(sym)
+            seen_h = set()
+            changed = False
+            for sym in hav:
+                if sym.get_id() in seen_h:
+                    continue
+                seen_h.add(sym.get_id())
+                s.push()
+                s.add(sym == 0)
+                if s.check() == z3.sat:
+                    changed = True
+                else:
+                    s.pop()
+            if changed and s.check() == z3.sat:
+                out.append(s.model())
+            out.append(base_model)
             if len(out) >= tries:
                 break
     return out
